@@ -3,8 +3,8 @@ C03 — only justified work is re-executed.
 
 PART 1 (namespace `Qbice.CoreFw`): the extended core engine model (all five kinds, the repaired
 design; `Model/EngineCore.lean`, second half).  The `log` field of the state records every executor
-invocation.  Proved under `Shape p` = `NoProjOverProj p ∨ StaticProj p` (no projection reads a
-projection, or every projection has a value-independent read sequence; see `Props/C01.lean`); the
+invocation.  Proved under `Shape p` (every projection that is read by a projection has a
+value-independent read sequence; see `Props/C01.lean`); the
 statement for all programs is `C03_exec_justified_full_statement`.  Since the repair of finding F13
 (the `BackwardProjectionPropagation` caller repairs a projection like a pedantic query caller instead
 of re-executing it unconditionally) there is no third reason for an execution: a projection, too, runs
@@ -34,7 +34,7 @@ def C03_exec_justified_full_statement : Prop :=
     whose from-scratch value on the committed inputs is no longer `o` — firewalls included (a firewall
     whose recomputation returns the stored value lets nothing above it run), projections re-run by
     backward projection included (finding F13 repaired).
-    PARTIAL: `Shape p` = no projection over a projection, or all projections static. -/
+    PARTIAL: `Shape p` = every projection that is read by a projection has a value-independent read sequence. -/
 theorem core_exec_justified_partial {p : Program} (wf : WF p) (sh : Shape p) {s : St} (inv : Inv p s)
     {k fuel : Nat} (hk : k < fuel) {v : Val} {s' : St} (h : query p fuel .user k s = .ok (v, s')) :
     ∃ new, s'.log = s.log ++ new ∧
@@ -54,7 +54,7 @@ example : WF exD ∧ Shape exD ∧ (runOps exD [.sess [.set 0 1, .set 1 5], .rou
       .round [4], .sess [.set 0 1], .round [4], .round [3]] {}).toOption.map (·.1) =
     some [.sess [.fresh, .fresh], .round [10] [2, 3], .sess [.updated], .round [5] [2, 4],
       .sess [.updated], .round [6] [2, 4], .round [10] []] :=
-  ⟨exD_wf, Or.inl exD_pf, by decide⟩
+  ⟨exD_wf, exD_pf.shape, by decide⟩
 
 /-- class B (static projection chains), restated -/
 theorem core_exec_justified_classB_partial {p : Program} (wf : WF p) (sp : StaticProj p) {s : St}
@@ -63,7 +63,7 @@ theorem core_exec_justified_classB_partial {p : Program} (wf : WF p) (sp : Stati
     ∃ new, s'.log = s.log ++ new ∧
       ∀ x, x ∈ new → s.nodes x = none ∨
         ∃ n d o, s.nodes x = some n ∧ (d, o) ∈ n.deps ∧ cur p s d ≠ some o :=
-  core_exec_justified_partial wf (Or.inr sp) inv hk h
+  core_exec_justified_partial wf (sp.shape wf) inv hk h
 
 /-- non-vacuity of class B: the chain of three projections `exS` after the firewall changed: every
     node of the chain is re-executed once -/
@@ -73,7 +73,7 @@ example : WF exS ∧ StaticProj exS ∧ Inv exS exSU ∧
 
 /-- "at most one execution per key between two input sessions": the keys executed by a query are
     pairwise distinct, none of them was verified in the current epoch before, and all of them are
-    verified afterwards.  PARTIAL: `Shape p` = no projection over a projection, or all projections static. -/
+    verified afterwards.  PARTIAL: `Shape p` = every projection that is read by a projection has a value-independent read sequence. -/
 theorem core_exec_once_partial {p : Program} (wf : WF p) (sh : Shape p) {s : St} (inv : Inv p s)
     {k fuel : Nat} (hk : k < fuel) {v : Val} {s' : St} (h : query p fuel .user k s = .ok (v, s')) :
     ∃ new, s'.log = s.log ++ new ∧ new.Nodup ∧
@@ -127,11 +127,11 @@ theorem core_refresh_reexecutes_all_externals {p : Program} {s : St} {rs : List 
 example : WF exF ∧ Shape exF ∧ Inv exF exFS ∧ Inv exF exFU ∧
     (query exF (fuelFor exF) .user 5 { exFS with log := [] }).toOption.map (·.2.log) = some [2] ∧
     (query exF (fuelFor exF) .user 5 { exFU with log := [] }).toOption.map (·.2.log) = some [2, 3, 4, 5] :=
-  ⟨exF_wf, Or.inl exF_noProj.over, exFS_inv, exFU_inv, by decide, by decide⟩
+  ⟨exF_wf, exF_noProj.over.shape, exFS_inv, exFU_inv, by decide, by decide⟩
 
 /-- the same over any number of rounds run within one epoch: all executions are of distinct keys
     and each is justified with respect to the state before the first round.
-    PARTIAL: `Shape p` = no projection over a projection, or all projections static. -/
+    PARTIAL: `Shape p` = every projection that is read by a projection has a value-independent read sequence. -/
 theorem core_rounds_exec_once_partial {p : Program} (wf : WF p) (sh : Shape p) {s : St} (inv : Inv p s)
     {kss : List (List Key)} {outs : List (List Val)} {s' : St}
     (h : runRounds p kss s = .ok (outs, s')) :
